@@ -45,7 +45,7 @@ PROPS = {
     },
     "C10": {
         "suites": ["fault", "faultmodel", "segment", "crash"],
-        "partial": "proved at the WAL level for every history of calls in which each call has at most one failing I/O action (Model.Fault: readers see exactly the calls that returned nil; a clean restart recovers the history with each failed call applied in full or not at all); proved at the byte level for the writer's rollback (Model.Segment). Not covered by a theorem: several failing actions inside one call (persistent faults), failing reads and failing Open — those are explored by the fault suite's ghost-state monitors on the real code; the byte level and the protocol level are linked by matching statements and correspondence, not by a mechanised composition",
+        "partial": "proved at the WAL level for every history of calls, each under any fault plan — any number of its I/O actions failing (Model.Fault: readers see exactly the calls that returned nil; a clean restart recovers the history with each failed call applied in full or not at all); proved at the byte level for the writer's rollback (Model.Segment). Not covered by a theorem: appends that take several writes (batches over the 64 KiB commit buffer), failing reads and a failing Open — those are explored by the fault suite's ghost-state monitors on the real code; the byte level and the protocol level are linked by matching statements and correspondence, not by a mechanised composition",
         "assumptions": ["reads do not fail", "a failing write lands a prefix of its bytes"],
     },
     "C11": {
